@@ -10,8 +10,17 @@ theorem chunk_consumed_and_dropped_partition (b e j : Nat) (hj : b + j ≤ e) :
     rangeList b (b + j) ++ rangeList (b + j) e = rangeList b e :=
   rangeList_append b (b + j) e (by omega) hj
 
-theorem takeCount_le (kk : Option Nat) (a : Nat) : takeCount kk a ≤ a := by
-  unfold takeCount; split <;> omega
+theorem takeCount_le (kk : Take) (a : Nat) : takeCount kk a ≤ a := Take.count_le kk a
+
+/-- the same when the caller consumes through `Iterator::nth(k)`: the `min k a` discarded elements, the one element
+returned (none if `k ≥ a`) and what the chunk iterator drops at the end are together the positions handed out -/
+theorem chunk_nth_partition (b e : Nat) (kk : Take) (hbe : b ≤ e) :
+    rangeList b (b + kk.skipped (e - b)) ++ rangeList (b + kk.skipped (e - b)) (b + takeCount kk (e - b))
+      ++ rangeList (b + takeCount kk (e - b)) e = rangeList b e := by
+  have h1 := Take.skipped_le_count kk (e - b)
+  have h2 := Take.count_le kk (e - b)
+  rw [rangeList_append b _ _ (by omega) (by unfold takeCount; omega)]
+  exact rangeList_append b _ e (by omega) (by unfold takeCount; omega)
 
 /-- `Drop` of `ConIterOfVec` / `ConIterOfArray` drops exactly the positions from the clamped counter to the end -/
 theorem drop_drops_remainder (s : KSrc) (c : Cfg) (h : s.owning = true) :
